@@ -1,14 +1,45 @@
 (* C13 — equality means equal logical content, nothing else.
-   What is proved here, for EVERY parameter list and for arbitrary memory contents (so
-   also for every junk fill, spare capacity and allocator): == is reflexive and symmetric
-   on vectors and on element references, != is its negation, field-level equality is
-   exactly equality of the stored objects including their number.  The characterisation
-   "== holds iff the operands hold the same tuples" for the byte-wise compared runs is
-   decided by the correspondence check and its content oracle (see DESIGN.md, C13). *)
+   Proved for EVERY well-formed parameter list:
+   * two elements stored anywhere - in any memories, at any aligned positions, whatever
+     junk surrounds them, with the same or different fixed sizes - compare equal with the
+     library's operator== (memcmp-able runs compared byte-wise, the other fields object-wise)
+     EXACTLY when they hold the same tuple: same field sizes, same values
+     (C13_reference_equality_is_content_equality).  The proof rests on the structure of the
+     run table: a compared run contains no alignment padding and at most one span, at its
+     end, so its bytes are the concatenated bytes of its fields.
+   * references into vectors that represent lists of tuples, and whole vectors on the
+     element-wise path, likewise (C13_vector_elements_…, C13_vector_equality_elementwise_…).
+   * for arbitrary memory contents: == is reflexive and symmetric on vectors and references,
+     != is its negation.
+   PARTIAL: the whole-buffer fast path of vector == (all value types memcmp-able, no padding
+   possible, equal fixed sizes) is modelled and tied to the code but "buffers equal iff
+   lists equal" is not a theorem (Rep does not record that elements are packed without
+   gaps).  The attempt to prove it exposed a genuine defect - vectors of zero-byte elements
+   compare equal whatever their size - which is repaired (DESIGN.md, section 7, F28). *)
 From Coq Require Import ZArith List Bool.
-From Cntgs Require Import Base Layout Mem Vector Proxy World CompareThm.
+From Cntgs Require Import Base Layout Mem Vector Proxy World Spec Rep CompareThm ElemThm CmpContent.
 Import ListNotations.
 Local Open Scope Z_scope.
+
+Theorem C13_reference_equality_is_content_equality : forall L, wf_plist L = true ->
+  forall t1 t2 fc1 fc2, tuple_ok L fc1 0 t1 -> tuple_ok L fc2 0 t2 ->
+  forall m1 m2 a1 a2, elem_at L m1 a1 t1 -> elem_at L m2 a2 t2 ->
+  (elem_equal L m1 (ref_fl L t1 a1) m2 (ref_fl L t2 a2) = true <-> t1 = t2).
+Proof. exact elem_equal_content. Qed.
+Print Assumptions C13_reference_equality_is_content_equality.
+
+Theorem C13_vector_elements_equal_iff_same_tuple : forall L, wf_plist L = true ->
+  forall v1 l1 v2 l2 i j, Rep L v1 l1 -> Rep L v2 l2 -> (i < length l1)%nat -> (j < length l2)%nat ->
+  (ref_equal L v1 (Z.of_nat i) v2 (Z.of_nat j) = true <-> nth i l1 [] = nth j l2 []).
+Proof. exact ref_equal_content. Qed.
+Print Assumptions C13_vector_elements_equal_iff_same_tuple.
+
+Theorem C13_vector_equality_elementwise_is_content_equality : forall L, wf_plist L = true ->
+  forall v1 l1 v2 l2, Rep L v1 l1 -> Rep L v2 l2 ->
+  (forallb eqm L && padfree L && list_eqb (v_fixed v1) (v_fixed v2)) = false ->
+  (vec_equal L v1 v2 = true <-> l1 = l2).
+Proof. exact vec_equal_content_elementwise. Qed.
+Print Assumptions C13_vector_equality_elementwise_is_content_equality.
 
 Theorem C13_vector_equality_reflexive : forall L v, vec_equal L v v = true.
 Proof. exact vec_equal_refl. Qed.
